@@ -207,6 +207,25 @@ func c12Run(tcpBeh, udpBeh []string, limit int, srv string) (res string, attempt
 	var logMu sync.Mutex
 	var kdcs []*scriptedKDC
 	conf := fmt.Sprintf("[libdefaults]\n default_realm = %s\n dns_lookup_kdc = false\n udp_preference_limit = %d\n[realms]\n %s = {\n", realm, limit, realm)
+	// "conf…" modes: the KDCs are listed in the configuration, and the list also names a host that no longer
+	// resolves ("stale"), or dns_lookup_kdc is on and DNS publishes SRV records for the realm that lead nowhere
+	// ("dnsdead": servers listed in the configuration are the ones that are used)
+	confMode := strings.HasPrefix(srv, "conf")
+	if confMode {
+		realm = fmt.Sprintf("Conf%d.VERIF", atomic.AddInt64(&c12DNSRealms, 1))
+		conf = fmt.Sprintf("[libdefaults]\n default_realm = %s\n dns_lookup_kdc = %v\n udp_preference_limit = %d\n[realms]\n %s = {\n", realm, strings.Contains(srv, "dnsdead"), limit, realm)
+		if strings.Contains(srv, "stale") {
+			conf += "  kdc = retired-kdc.nowhere.verif:88\n  kdc = also-retired.nowhere.verif\n"
+		}
+		if strings.Contains(srv, "dnsdead") && c12DNS != nil {
+			dead, dl, du := reservePort()
+			dl.Close()
+			du.Close()
+			c12DNS.set("_kerberos._tcp."+realm+".", []int{dead})
+			c12DNS.set("_kerberos._udp."+realm+".", []int{dead})
+		}
+		srv = ""
+	}
 	if srv != "" {
 		realm = fmt.Sprintf("DNS%d.VERIF", atomic.AddInt64(&c12DNSRealms, 1))
 		conf = fmt.Sprintf("[libdefaults]\n default_realm = %s\n dns_lookup_kdc = true\n udp_preference_limit = %d\n[realms]\n OTHER.REALM = {\n", realm, limit)
@@ -262,8 +281,13 @@ func c12Run(tcpBeh, udpBeh []string, limit int, srv string) (res string, attempt
 	rb, _ := asReq.Marshal()
 	reqLen = len(rb)
 	var xerr error
+	cfgBefore, _ := cfg.JSON()
 	if p := Protect(func() { _, xerr = cl.ASExchange(realm, asReq, 0) }); p != "" {
 		return "panic " + p, attempts, reqLen
+	}
+	if cfgAfter, _ := cfg.JSON(); cfgAfter != cfgBefore {
+		// (the configuration belongs to the caller and may be shared: an exchange reads it)
+		return "other the exchange changed the configuration it was given: before " + cut(cfgBefore, 400) + " after " + cut(cfgAfter, 400), attempts, reqLen
 	}
 	logMu.Lock()
 	attempts = append([]string{}, attempts...)
@@ -379,7 +403,7 @@ func TestC12(t *testing.T) {
 		if _, addrs, e := net.LookupSRV("kerberos", "tcp", "SELFTEST.VERIF"); e == nil || len(addrs) != 0 {
 			v.Note("DNS cases: the resolver does not reach the harness's server, left out")
 		} else {
-			for _, srv := range []string{"tcp", "udp", "tcp+udp", "tcp+udp+hole"} {
+			for _, srv := range []string{"tcp", "udp", "tcp+udp", "tcp+udp+hole", "conf+stale", "conf+dnsdead", "conf+stale+dnsdead"} {
 				for _, l := range []int{1, 10, 1465} {
 					cases = append(cases, cse{tcp: []string{"a"}, udp: []string{"a"}, limit: l, srv: srv},
 						cse{tcp: []string{"r", "a"}, udp: []string{"a", "c"}, limit: l, srv: srv},
@@ -413,7 +437,9 @@ func c12Case(m *Model, v *Verdict, tcp, udp []string, limit int) {
 func c12CaseSRV(m *Model, v *Verdict, tcp, udp []string, limit int, srv string) {
 	res, attempts, reqLen := c12Run(tcp, udp, limit, srv)
 	desc := fmt.Sprintf("limit=%d tcp=%s udp=%s", limit, strings.Join(tcp, ","), strings.Join(udp, ","))
-	if srv != "" {
+	if strings.HasPrefix(srv, "conf") {
+		desc += " kdcs-listed," + srv
+	} else if srv != "" {
 		// a transport for which the realm publishes no SRV record has no servers: for the model and the oracle that
 		// is a transport whose every endpoint refuses (nothing is contacted, the transport fails)
 		desc += " kdcs-from-dns-srv=" + srv
